@@ -287,8 +287,10 @@ def gen_opt_edits(rng, cs, ins, explicit=()):
                 res = rec.append_option(key, oval)
             elif kind == 4:
                 res = rec.prepend_option(key, oval)
-            else:
+            elif kind == 5:
                 res = rec.replace_option(key, new)
+            else:
+                res = rec.remove_nth_option(key, kind - 6)
             after = res.root.children
         except IndexError:
             exc = 1
@@ -320,8 +322,10 @@ def gen_opt_edits(rng, cs, ins, explicit=()):
         if rec.root.children and rec.root.children[-1].rule == 'WS':
             run_op(rec, 3, 'APPENDED', rng.choice([None, '1']), '')  # trailing blank space is dropped by append_option
         for _ in range(rng.choice([1, 2, 3])):
-            kind = rng.choice([1, 1, 2, 2, 3, 4, 5])
+            kind = rng.choice([1, 1, 2, 2, 3, 4, 5, 6, 6, 7, 8])          # 6 + n: remove_nth_option(key, n)
             key = rng.choice(keys) if keys and rng.random() < 0.75 else rng.choice(['NEWOPT', 'MAXEVAL', 'FILE', 'X'])
+            if kind >= 6 and keys and rng.random() < 0.5:
+                key = key + rng.choice(['S', 'ATION', '1'])          # the option's key only has to be a prefix of `key`
             val = rng.choice(['1', '99', 'abc.tab', '(1,2)'])
             new = rng.choice(['METH', 'NEWKEY', 'Z9'])
             oval = val if kind in (1,) or (kind in (3, 4) and rng.random() < 0.6) else None
@@ -755,8 +759,8 @@ def run(ctx):
         'edit_calls': {{1: 'insert_record', 2: 'remove_records', 3: 'replace_records', 4: 'replace_all', -4: 'replace_all ValueError'}[k]:
                        sum(1 for i in infos for e in i['edits'] if e == k) for k in (1, 2, 3, 4, -4)},
         'option_edit_calls': {{1: 'set_option', 2: 'remove_option', 3: 'append_option', 4: 'prepend_option', 5: 'replace_option',
-                               -2: 'remove_option IndexError'}.get(k, str(k)): sum(1 for i in infos for e in i.get('opts', []) if e == k)
-                              for k in (1, 2, 3, 4, 5, -2)},
+                               6: 'remove_nth_option(.,0)', 7: 'remove_nth_option(.,1)', 8: 'remove_nth_option(.,2)'}.get(k, str(k)):
+                              sum(1 for i in infos for e in i.get('opts', []) if e == k) for k in (1, 2, 3, 4, 5, 6, 7, 8)},
         'length_hist': {str(b): sum(1 for i in infos if b <= i['len'] < 2 * b) for b in (1, 64, 128, 256, 512, 1024, 2048, 4096)},
     }
     zipped = list(zip(specs, verdicts))
